@@ -186,7 +186,8 @@ def ORIG_intersection(mask_list, output_name=None):
 
 
 def ORIG_subtraction(mask_list, output_name=None):
-    final_mask = cryomap.read(mask_list[0])
+    # in floating point, like union and intersection: unsigned masks would wrap around at 0 - 1, boolean ones have no `-`
+    final_mask = cryomap.read(mask_list[0]).astype(float)
 
     for m in mask_list[1:]:
         mask = cryomap.read(m)
